@@ -164,3 +164,13 @@ PLAN["C09"] = {
         {"run": "TestC09EndToEnd", "shards": 6, "checks": 500, "timeout": 840},
     ]},
 }
+
+_stack("C13", "TestC13",
+       "stack programs (RF 1-3, exactly RF nodes) of 'race' steps - 1-3 writer goroutines issue numbered 512-byte stamps (writer, sequence) into their own block "
+       "ranges through the controller while 1-3 volume snapshot requests arrive after generated delays - interleaved with replica loss, re-add and rebuild, "
+       "sequential snapshots with per-node REST failures and promotions with per-node set-checkpoint failures; per successful snapshot: the image (independent "
+       "on-disk chain reader) is byte-identical on every RW replica and is a consistent cut (per writer: contains every write acknowledged before the request "
+       "began, none issued after it returned, and exactly the newest write per block up to the cut); snapshots are refused unless all RF replicas are RW; "
+       "a checkpoint is held only with RF replicas RW, persisted by each and contained in each chain, equals every chain[1] right after a promotion that "
+       "completes the set, is empty after a failed set-checkpoint or any departure; non-trivial = >=1 successful snapshot taken during a race", 80, 2500)
+PLAN["C13"]["technique"] = "model-based property testing (rapid) with real concurrent writers and snapshot requests; consistent-cut oracle on snapshot images"
